@@ -35,6 +35,23 @@ impl std::io::Write for Short {
     }
 }
 
+/// a writer that accepts `1` bytes in total and then reports that it would block
+struct Failing(Vec<u8>, usize);
+impl std::io::Write for Failing {
+    fn write(&mut self, buf: &[u8]) -> std::io::Result<usize> {
+        if self.1 == 0 {
+            return Err(std::io::ErrorKind::WouldBlock.into());
+        }
+        let n = buf.len().min(self.1);
+        self.1 -= n;
+        self.0.extend_from_slice(&buf[..n]);
+        Ok(n)
+    }
+    fn flush(&mut self) -> std::io::Result<()> {
+        Ok(())
+    }
+}
+
 /// c12-drive --n N --seed S
 pub fn drive(args: &[String]) {
     let n = arg_u64(args, "--n", 100) as usize;
@@ -102,6 +119,13 @@ pub fn drive(args: &[String]) {
         }
         let res = guarded(|| {
             let mut hnd = SixelImageHandler::new(bg);
+            if round % 3 == 1 {
+                // a draw that fails half way (a non-blocking descriptor that would block) must leave nothing behind in the
+                // handler: the draws below are judged as usual
+                let other = Image::from(SurfaceOwned::new_with(Size::new(12, 9), |p| palette[(p.row + p.col) % palette.len()]));
+                let mut failing = Failing(Vec::new(), 40);
+                let _ = hnd.draw(&mut failing, &other, Position::new(0, 0));
+            }
             let mut recs = Vec::new();
             for img in imgs.iter() {
                 let mut b1 = Vec::new();
@@ -131,13 +155,34 @@ pub fn drive(args: &[String]) {
     // height is cut to a multiple of six).  Interpreting 50 000 pixels in TLA+ is too slow: only the control items
     // (raster attributes, colour definitions, colour selections) are extracted here by a lexical scan and judged.
     let nbig = arg_u64(args, "--big", 2) as usize;
-    for k in 0..nbig {
-        let (w, h) = (300 + rnd.below(10), 171 + rnd.below(12));
-        let ncol = [300usize, 1000, 5000, 40000][k % 4];
+    // ---- and images in the upper half of the range that is NOT subsampled (25 600 .. 51 200 pixels) whose colours fit
+    // the palette, most of them occurring in a single pixel: every source colour must be a defined and selected register
+    let nmid = arg_u64(args, "--mid", 2) as usize;
+    for k in 0..nbig + nmid {
+        let mid = k >= nbig;
+        let (w, h) = if mid { (200 + rnd.below(50), 132 + rnd.below(48)) } else { (300 + rnd.below(10), 171 + rnd.below(12)) };
+        let ncol = if mid { 60 + rnd.below(190) } else { [300usize, 1000, 5000, 40000][k % 4] };
+        let up = |l: usize| ((l as f32) * 2.55).round() as u8;
+        let speck: std::collections::BTreeMap<usize, usize> = (1..ncol).map(|c| (if c == 1 { 0 } else { rnd.below(w * (h / 6) * 6) }, c)).collect();
         let img = Image::from(SurfaceOwned::new_with(Size::new(h, w), |p| {
+            if mid {
+                // colour c has the levels (c % 101, c / 101 * 50, 7): distinct at the 0..100 resolution
+                let c = speck.get(&(p.row * w + p.col)).copied().unwrap_or(0);
+                return RGBA::new(up(c % 101), up(c / 101 * 50), up(7), 255);
+            }
             let v = (p.row * w + p.col) % ncol;
             RGBA::new((v % 101) as u8 * 2, ((v / 101) % 101) as u8 * 2, ((v / 10201) % 101) as u8 * 2 + (rnd.below(2) as u8), 255)
         }));
+        let levels: Vec<Vec<usize>> = if mid {
+            let mut l: std::collections::BTreeSet<Vec<usize>> = Default::default();
+            l.insert(vec![0, 0, 7]);
+            for c in speck.values() {
+                l.insert(vec![c % 101, c / 101 * 50, 7]);
+            }
+            l.into_iter().collect()
+        } else {
+            Vec::new()
+        };
         let res = guarded(|| {
             let mut hnd = SixelImageHandler::new(None);
             let mut b1 = Vec::new();
@@ -194,9 +239,9 @@ pub fn drive(args: &[String]) {
                 }
                 let well_framed = bytes.starts_with(b"\x1bPq") && bytes.ends_with(b"\x1b\\");
                 out.rec(&json!({"id": id, "t": "big", "w": w, "h": h, "px": [], "bytes": [], "same": same, "ncol": ncol, "panic": "",
-                                 "raster": raster, "defs": defs, "selected": selected.into_iter().collect::<Vec<_>>(), "framed": well_framed}));
+                                 "raster": raster, "defs": defs, "selected": selected.into_iter().collect::<Vec<_>>(), "framed": well_framed, "levels": levels}));
             }
-            Err(m) => out.rec(&json!({"id": id, "t": "big", "w": w, "h": h, "px": [], "bytes": [], "same": true, "ncol": ncol, "panic": m, "raster": [], "defs": [], "selected": [], "framed": true})),
+            Err(m) => out.rec(&json!({"id": id, "t": "big", "w": w, "h": h, "px": [], "bytes": [], "same": true, "ncol": ncol, "panic": m, "raster": [], "defs": [], "selected": [], "framed": true, "levels": []})),
         }
         id += 1;
     }
